@@ -92,12 +92,17 @@ def verify(run, E, contract, prefix=None, tier=None, crosscheck=True, known=None
     name = contract.name
     prefix = prefix or name
     t0 = time.time()
+    # a function is never verified against its own summary
+    own = [k for k in E.summaries if "productmd.%s.%s.%s" % (k[0][0], k[0][1], k[1]) == name]
+    saved = dict((k, E.summaries.pop(k)) for k in own)
     try:
         paths = run_contract(E, contract)
     except Unsupported as u:
+        E.summaries.update(saved)
         with run.obligation(prefix + "#*", "pyvc/smt", [name]) as ob:
             ob.undecided("unsupported construct: %s" % u)
         return {}
+    E.summaries.update(saved)
     explore_s = time.time() - t0
     clauses = []
     for p in paths:
@@ -164,11 +169,11 @@ def cover_paths(run, E, contract, paths):
     for p in paths:
         out, goals, st = p.value
         run.covers["checked"] += 1
-        r = solve.check_inproc(list(p.pc) + list(E.axioms), 2000)
+        r = solve.check_inproc(list(p.pc) + list(E.axioms), 800)
         if r.status != "sat":
             continue
         run.covers["sat"] += 1
-        if p.havoc:
+        if p.havoc or p.abstract:
             continue
         try:
             inputs = contract.concretise(r.model, st)
@@ -211,6 +216,8 @@ def _confirm(run, contract, model, st, clause, out, path):
     if nc[clause] is False:
         return ("confirmed", "%s -> %s violates clause '%s'" % (desc, _nat(nat), clause),
                 contract.replay_script(inputs, clause))
+    if path.abstract:
+        return ("noinput", "counter-model involves abstract match groups; its string %s does not fail natively" % (desc,), None)
     return ("fault", "input %s: CPython gives %s and clause '%s' holds natively" % (desc, _nat(nat), clause), None)
 
 
